@@ -14,14 +14,18 @@ def kern_jobs(tier):
                         continue
                     if sm != 0:
                         os_ = 0 if sm == 2 else od
-                    out.append({"name": "kern-r%d-v%d-s%d-o%d%d" % (rounds, var, sm, os_, od), "src": "kern.c",
-                                "defs": {"MODE": 0, "ROUNDS": rounds, "VARIANT": var, "SRCMODE": sm, "OFFS": os_, "OFFD": od},
-                                "unwind": 66, "solver": SOLVER,
-                                "shape": "rounds=%d variant=%s src=%s offsets src+%d dst+%d" % (
-                                    rounds, {8: "aligned8", 4: "aligned4", 0: "unaligned"}[var],
-                                    {0: "separate", 1: "in place", 2: "NULL"}[sm], os_, od),
-                                "desc": "dst == src ^ RFC-order reference key stream for all 512 state bits and all sources; "
-                                        "64-bit counter +1; other state words unchanged"})
+                    base = {"src": "kern.c", "unwind": 66,
+                            "defs": {"MODE": 0, "ROUNDS": rounds, "VARIANT": var, "SRCMODE": sm, "OFFS": os_, "OFFD": od},
+                            "shape": "rounds=%d variant=%s src=%s offsets src+%d dst+%d; all 512 state bits, temp x[], source "
+                                     "block and old dst content symbolic" % (
+                                         rounds, {8: "aligned8", 4: "aligned4", 0: "unaligned"}[var],
+                                         {0: "separate", 1: "in place", 2: "NULL"}[sm], os_, od)}
+                    nm = "kern-r%d-v%d-s%d-o%d%d" % (rounds, var, sm, os_, od)
+                    out.append(dict(base, name=nm + "-ks", solver="cvc5", prop_include="KS:",
+                                    desc="key stream words left in ctx->x == RFC 8439-order reference rounds(state)+state"))
+                    out.append(dict(base, name=nm + "-xor", solver=SOLVER, prop_exclude="KS:",
+                                    desc="dst == src ^ LE(ctx->x) (or LE(ctx->x) for src==NULL); 64-bit counter +1 with carry; other "
+                                         "state words, bytes before dst and a separate source unchanged; memory safety"))
     seen, uniq = set(), []
     for j in out:
         if j["name"] not in seen:
